@@ -103,3 +103,34 @@ Qed.
 Theorem rebuild_sec_within_other tcs unused :
   length tcs <> 1 -> rebuild_sec_within tcs unused = Ok (tcs, unused).
 Proof. destruct tcs as [|a [|b t]]; cbn; intros H; try reflexivity. lia. Qed.
+
+(* when NO section carries a colon (colon-first layouts): the cautious mode accepts on its second pass exactly
+   what the default mode accepts, with the same finder flags, and adds the pulled_sec_without_colon warning *)
+Definition no_colon (text : str) : bool :=
+  forallb (fun x => negb (has_colon text x)) (finditer multisec_regex multisec_regex_ng text).
+
+Theorem sec_finder_cautious_no_colon text layout f1 f0 :
+  no_colon text = true -> layout_in layout [TRS_DESC; S_DESC_TR] = true ->
+  sec_finder text (Some layout) RC_cautious = Ok f1 -> sec_finder text (Some layout) (RC_bool false) = Ok f0 ->
+  sf_matches f1 = sf_matches f0 /\
+  (sf_matches f0 = [] -> f1 = f0) /\
+  (sf_matches f0 <> [] -> exists nums, let flag := s "pulled_sec_without_colon<" ++ join (s ",") nums ++ s ">" in
+                                      sf_flags f1 = sf_flags f0 ++ [flag] /\ sf_flag_lines f1 = sf_flag_lines f0 ++ [(flag, flag)]).
+Proof.
+  intros Hnc Hl. unfold sec_finder. cbv zeta.
+  (* the default run *)
+  assert (P0 : sec_finder_pass text layout (RC_bool false) (mk_sfinder [] [] []) = sec_finder_pass text layout RC_second (mk_sfinder [] [] [])).
+  { unfold sec_finder_pass. rewrite Hl. reflexivity. }
+  destruct (sec_finder_pass text layout RC_cautious (mk_sfinder [] [] [])) as [[fa na]|e] eqn:Ea; cbn [bind]; [|discriminate].
+  assert (Hfa : sf_matches fa = []).
+  { unfold sec_finder_pass in Ea. rewrite Hl in Ea. exact (sf_loop_no_colon_matches _ _ _ _ _ _ Hnc Ea). }
+  rewrite Hfa, Hl.
+  assert (Pa : sec_finder_pass text layout RC_second fa = sec_finder_pass text layout RC_second (mk_sfinder [] [] [])).
+  { unfold sec_finder_pass. rewrite Hfa. reflexivity. }
+  rewrite Pa, <- P0.
+  destruct (sec_finder_pass text layout (RC_bool false) (mk_sfinder [] [] [])) as [[f2 n2]|e]; cbn [bind]; [|discriminate].
+  destruct (sf_matches f2) as [|m ms] eqn:Em.
+  - intros H1 H0. injection H1 as <-. injection H0 as <-. rewrite Em. split; [reflexivity|]. split; [reflexivity|]. intros K. contradiction.
+  - intros H1 H0. injection H1 as <-. injection H0 as <-. cbn [sf_matches sf_flags sf_flag_lines]. rewrite Em.
+    split; [reflexivity|]. split; [discriminate|]. intros _. exists n2. split; reflexivity.
+Qed.
